@@ -57,6 +57,8 @@ pub struct ReqRep {
     pub any_order: bool,
     /// ready-gated sinks (see `World::gate`)
     pub gate: bool,
+    /// every socket is registered before the router's first poll
+    pub burst_reg: bool,
 }
 
 impl ReqRep {
@@ -69,7 +71,7 @@ impl ReqRep {
             "repliers": self.repliers.iter().map(|r| r.iter().map(|k| mode_name(k)).collect::<Vec<_>>()).collect::<Vec<_>>(),
             "registration_order": self.order.iter().map(|s| match s { RSock::Q(i) => format!("Q{i}"), RSock::R(i) => format!("R{i}") }).collect::<Vec<_>>(),
             "router_hash_ranks": self.ranks,
-            "faults": self.faults, "close": self.close, "depart": self.depart, "hostile": self.hostile, "owner": self.owner, "any_registration_order": self.any_order, "ready_gated_sinks": self.gate,
+            "faults": self.faults, "close": self.close, "depart": self.depart, "hostile": self.hostile, "owner": self.owner, "any_registration_order": self.any_order, "ready_gated_sinks": self.gate, "registered_in_one_burst": self.burst_reg,
         })
     }
 
@@ -188,6 +190,9 @@ impl<'s> Env for RrEnv<'s> {
     }
     fn any_order(&self) -> bool {
         self.scn.any_order
+    }
+    fn burst_registration(&self) -> bool {
+        self.scn.burst_reg
     }
     fn departable(&self, g: &World) -> Vec<usize> {
         if !self.scn.depart {
